@@ -445,3 +445,13 @@ def sum_leaves(x, depth=0):
     if x and x[0] == "binop" and x[1] in ("Add", "AddUnchecked"):
         return sum_leaves(x[2], depth + 1) + sum_leaves(x[3], depth + 1)
     return [x]
+
+
+def mentions_call(v, g):
+    """does term v contain the result of call g (same callee, same call site, same loop iteration), however wrapped?"""
+    if not (g and g[0] == "call"):
+        return contains(v, g)
+    for x in walk_terms(v):
+        if x and x[0] == "call" and x[1] == g[1] and x[3] == g[3] and (x[5] if len(x) > 5 else 1) == (g[5] if len(g) > 5 else 1):
+            return True
+    return False
